@@ -53,6 +53,10 @@ pub async fn worker(
 			ActionReturn::Async(action) => Box::into_pin(action).await,
 		};
 
+		// verification seam: adopt new jobs in creation order instead of hash order
+		#[cfg(watchexec_verif)]
+		let action = crate::verif::sort_action(action);
+
 		debug!("take control of new tasks");
 		for (id, (job, task)) in action.new {
 			trace!(?id, "taking control of new task");
@@ -67,6 +71,9 @@ pub async fn worker(
 				QuitManner::Graceful { signal, grace } => {
 					debug!(?signal, ?grace, "quitting worker gracefully");
 					let mut tasks = LateJoinSet::default();
+					// verification seam: quit the jobs in creation order instead of hash order
+					#[cfg(watchexec_verif)]
+					let mut jobs = crate::verif::sort_jobs(&mut jobs);
 					for (id, job) in jobs.drain() {
 						trace!(?id, "quitting job");
 						tasks.spawn(async move {
@@ -105,6 +112,10 @@ pub async fn worker(
 
 		debug!("action handler finished");
 	}
+
+	// verification seam: release the job handles in creation order instead of hash order
+	#[cfg(watchexec_verif)]
+	drop(crate::verif::sort_jobs(&mut jobs));
 
 	debug!("action worker finished");
 	Ok(())
